@@ -1,0 +1,192 @@
+//go:build verif
+
+package rtpconn
+
+// Exports for the `subscribe` correspondence driver (property C07:
+// subscribers are offered exactly what they requested; teardown reaches
+// everyone).  Add-only; nothing here is compiled into the server.
+//
+//   - VerifRequestedTracks runs the REAL requestedTracks on fake conn.UpTrack
+//     values that only have a Kind().
+//   - VerifUp is a handle on a real rtpUpConnection (it stays valid after the
+//     connection was deleted from the client's table: queued pushConnActions
+//     and the delayed push still refer to the object).  Fire runs, NOW, exactly
+//     what the goroutine started by pushConn runs after its 200 ms sleep (the
+//     `pushed` test-and-set followed by pushConnNow on the clients that are in
+//     the group at that moment); the goroutine itself then finds pushed == true
+//     and does nothing.  The harness thereby chooses the
+//     moment at which the delayed push happens.
+//   - VerifDowns describes the down connections of a client (remote stream,
+//     per-stream request, selected tracks as indices into the remote's track
+//     list).
+
+import (
+	"sort"
+
+	"github.com/pion/webrtc/v4"
+
+	"github.com/jech/galene/conn"
+	"github.com/jech/galene/group"
+)
+
+type verifKindTrack struct {
+	kind webrtc.RTPCodecType
+	idx  int
+}
+
+func (t *verifKindTrack) AddLocal(conn.DownTrack) error { return nil }
+func (t *verifKindTrack) DelLocal(conn.DownTrack) bool  { return true }
+func (t *verifKindTrack) Kind() webrtc.RTPCodecType     { return t.kind }
+func (t *verifKindTrack) Label() string                 { return "" }
+func (t *verifKindTrack) Codec() webrtc.RTPCodecCapability {
+	return webrtc.RTPCodecCapability{}
+}
+func (t *verifKindTrack) GetPacket(uint16, []byte, bool) uint16 { return 0 }
+func (t *verifKindTrack) RequestKeyframe() error                { return nil }
+
+// VerifRequestedTracks calls requestedTracks(nil, requested, tracks) where
+// tracks[i] is a fake track of kind kinds[i] (0 = unknown, 1 = audio,
+// 2 = video: the values of webrtc.RTPCodecType).  It returns the indices of
+// the chosen tracks in the order in which requestedTracks returns them.  The
+// webClient argument is nil: requestedTracks does not use it.  nilRequest
+// passes a nil slice instead of an empty one.
+func VerifRequestedTracks(requested []string, nilRequest bool, kinds []int) (idx []int, limitSid bool) {
+	tracks := make([]conn.UpTrack, len(kinds))
+	for i, k := range kinds {
+		tracks[i] = &verifKindTrack{kind: webrtc.RTPCodecType(k), idx: i}
+	}
+	if nilRequest {
+		requested = nil
+	}
+	ts, limit := requestedTracks(nil, requested, tracks)
+	idx = make([]int, 0, len(ts))
+	for _, t := range ts {
+		idx = append(idx, t.(*verifKindTrack).idx)
+	}
+	return idx, limit
+}
+
+// VerifUp is a handle on an up connection object.
+type VerifUp struct {
+	up *rtpUpConnection
+}
+
+// VerifUp returns the handle of the client's up connection with the given
+// id, nil if there is none.
+func (v *VerifClient) VerifUp(id string) *VerifUp {
+	up := getUpConn(v.c, id)
+	if up == nil {
+		return nil
+	}
+	return &VerifUp{up}
+}
+
+func (u *VerifUp) Id() string    { return u.up.id }
+func (u *VerifUp) Label() string { return u.up.label }
+func (u *VerifUp) Owner() string { return u.up.client.Id() }
+
+func (u *VerifUp) Closed() bool {
+	u.up.mu.Lock()
+	defer u.up.mu.Unlock()
+	return u.up.closed
+}
+
+func (u *VerifUp) Pushed() bool {
+	u.up.mu.Lock()
+	defer u.up.mu.Unlock()
+	return u.up.pushed
+}
+
+func (u *VerifUp) Replace() string { return u.up.getReplace(false) }
+
+// Kinds returns the kinds of the tracks of the connection, in order
+// ("audio", "video").
+func (u *VerifUp) Kinds() []string {
+	ts := u.up.getTracks()
+	out := make([]string, len(ts))
+	for i, t := range ts {
+		out[i] = t.Kind().String()
+	}
+	return out
+}
+
+// NumLocal is the number of down connections attached to the connection.
+func (u *VerifUp) NumLocal() int { return len(u.up.getLocal()) }
+
+// Fire is the body of the goroutine of pushConn after its sleep: g is the
+// group the goroutine captured (the publisher's group when pushConn was
+// called); the clients are read from the group now.  It returns whether
+// pushConnNow ran (false: somebody else had pushed already).
+func (u *VerifUp) Fire(g *group.Group) bool {
+	up := u.up
+	up.mu.Lock()
+	pushed := up.pushed
+	up.pushed = true
+	up.mu.Unlock()
+	if !pushed {
+		pushConnNow(up, g, g.GetClients(up.client))
+	}
+	return !pushed
+}
+
+// VerifDown describes one down connection of a client.
+type VerifDown struct {
+	Id           string
+	RemoteId     string
+	RemoteOwner  string
+	RemoteUser   string
+	RemoteLabel  string
+	RemoteClosed bool
+	SameObject   *VerifUp // the remote, if it is an rtpUpConnection
+	HasRequested bool     // down.requested != nil
+	Requested    []string
+	TrackIdx     []int // index of every down track's remote in the remote's track list (-1: not found)
+	TrackKinds   []string
+	LimitSid     []bool
+	HaveLocal    bool // signalling state have-local-offer
+	Negotiation  int
+}
+
+// VerifDowns lists the down connections of the client, sorted by id.
+func (v *VerifClient) VerifDowns() []VerifDown {
+	v.c.mu.Lock()
+	downs := make([]*rtpDownConnection, 0, len(v.c.down))
+	for _, d := range v.c.down {
+		downs = append(downs, d)
+	}
+	v.c.mu.Unlock()
+	sort.Slice(downs, func(i, j int) bool { return downs[i].id < downs[j].id })
+	out := make([]VerifDown, 0, len(downs))
+	for _, d := range downs {
+		vd := VerifDown{Id: d.id}
+		vd.RemoteId = d.remote.Id()
+		vd.RemoteLabel = d.remote.Label()
+		vd.RemoteOwner, vd.RemoteUser = d.remote.User()
+		var rts []*rtpUpTrack
+		if up, ok := d.remote.(*rtpUpConnection); ok {
+			vd.SameObject = &VerifUp{up}
+			vd.RemoteClosed = vd.SameObject.Closed()
+			rts = up.getTracks()
+		}
+		vd.HasRequested = d.requested != nil
+		vd.Requested = append([]string{}, d.requested...)
+		for _, t := range d.getTracks() {
+			idx := -1
+			for i, rt := range rts {
+				if conn.UpTrack(rt) == t.remote {
+					idx = i
+				}
+			}
+			vd.TrackIdx = append(vd.TrackIdx, idx)
+			vd.TrackKinds = append(vd.TrackKinds, t.remote.Kind().String())
+			vd.LimitSid = append(vd.LimitSid, t.getLayerInfo().limitSid)
+		}
+		vd.HaveLocal = d.pc.SignalingState() == webrtc.SignalingStateHaveLocalOffer
+		vd.Negotiation = d.negotiationNeeded
+		out = append(out, vd)
+	}
+	return out
+}
+
+// Same reports whether two handles denote the same connection object.
+func (u *VerifUp) Same(o *VerifUp) bool { return o != nil && u.up == o.up }
